@@ -386,6 +386,48 @@ def inst_assign_int_list(list_axis_chunks, positions):
                     api_replay=api)
 
 
+def inst_mask_assign_history():
+    """x[mask] = v with a lazy boolean mask, after x was materialized once (keys and lowered expression read): every cache of
+    the old expression is dropped -- x's keys carry its new name, the graph it hands out afterwards computes where(mask, v, x),
+    and so does a collection derived from x after the assignment"""
+    def body(E):
+        import operator
+
+        from . import catalog
+
+        w = catalog.W(E)
+        x = catalog.source(w, E, "x", (2,))
+        m = catalog.source(w, E, "m", (2,), chunks=x.node.chunks, dtype="bool")
+        coll = w.fn(catalog.NC, "new_collection")(x.node)
+        mask = w.fn(catalog.NC, "new_collection")(m.node)
+        old_name = coll._name
+        _ = coll._lowered_expr           # history: x was materialized ...
+        _ = coll.__dask_keys__()         # ... and its keys were read
+        v = -1.0  # (the value goes through np.asanyarray: a concrete float)
+        coll[mask] = v
+        E.ensure("x-has-a-new-name", coll._name != old_name)
+        name = coll._name
+        keys = [k for row in [coll.__dask_keys__()] for k in (row if isinstance(row, list) else [row])]
+        E.ensure("keys-carry-the-new-name", all(k[0] == name for k in keys))
+        low = coll._lowered_expr
+        E.ensure("lowered-expression-is-the-new-one", low._name == name)
+        X, M = x.ref, m.ref
+        ref = SArr(X.shape, lambda idx: z3.If(M._at(idx) != 0, core.SymReal._r(v), X._at(idx)))
+        dsk = dict(x.dsk)
+        dsk.update(m.dsk)
+        dsk.update(catalog._layers(low))
+        whole, _r = run_blocks(E, dsk, low._name, coll.chunks, label="after-assignment")
+        same_array(E, whole, ref, label="x-after-mask-assignment")
+        child = catalog.p_elemwise(w, operator.neg, catalog.Prog(coll.expr, ref, dsk))
+        cm = catalog.stages(E, w, child.node, {"materialized"})["materialized"]
+        dsk2 = dict(dsk)
+        dsk2.update(catalog._layers(cm))
+        whole2, _r = run_blocks(E, dsk2, cm._name, child.node.chunks, label="child")
+        same_array(E, whole2, child.ref, label="child-of-x-after-assignment", skolem="q")
+
+    return Instance("mask_assignment_after_materialization", body, {}, unit="Array.__setitem__ (dask mask) + _replace_expr caches")
+
+
 IDENTITY_SITE = "Array:identity-like-operation-returns-self"
 
 
@@ -457,7 +499,7 @@ def _program_instances(tier):
 
 def instances(tier):
     q = tier == "quick"
-    out = _program_instances(tier) + [inst_derived_keep_value(), inst_assign_int_list((3, 3), (1, 2, 4)),
+    out = _program_instances(tier) + [inst_derived_keep_value(), inst_mask_assign_history(), inst_assign_int_list((3, 3), (1, 2, 4)),
                                       inst_assign_int_list((2, 2), (3, 0))]
     steps = [None, 1, 2, -1, -2] if q else [None, 1, 2, 3, -1, -2, -3]
     for m in ([1, 2, 3] if q else [1, 2, 3, 4]):
